@@ -52,7 +52,7 @@ def _java(args, cwd, env=None, timeout=1800, dfs=False, heap="8g", slots=1):
     e = dict(os.environ)
     if env:
         e.update({k: str(v) for k, v in env.items()})
-    cmd = ["java", "-XX:+UseParallelGC", "-XX:ParallelGCThreads=2", "-XX:CICompilerCount=2", f"-Xmx{heap}", f"-DTLA-Library={SPEC}"]
+    cmd = ["java", "-XX:+UseParallelGC", "-XX:ParallelGCThreads=2", "-XX:CICompilerCount=2", "-Xss64m", f"-Xmx{heap}", f"-DTLA-Library={SPEC}"]  # -Xss: deep (non-tail) TLA+ recursions; a too small stack makes TLC hang or fail depending on JIT timing
     if dfs:
         cmd.append("-Dtlc2.tool.queue.IStateQueue=StateDeque")
     cmd += ["-cp", f"{JAR}:{CM}"] + args
